@@ -52,6 +52,35 @@ inductive Form where
   | direct | thunk | absent | unknown
 deriving DecidableEq, Repr, Inhabited
 
+inductive Err where
+  | noQuery
+  | badName                -- "Type must be named." / "Names must match …"
+  | emptyFields            -- "… fields must be an object with field names as keys …"
+  | fieldTypeNotOutput     -- "… field type must be Output Type but got …" (nil, or not an output type)
+  | nilArg                 -- "… args must be an object with argument names as keys."
+  | argTypeNotInput        -- "… argument type must be Input Type but got …"
+  | inputFieldTypeNotInput -- "… field type must be Input Type but got …"
+  | emptyEnum | nilEnumValue
+  | enumValueReserved      -- "Name \"true\" can not be used as an Enum value."
+  | emptyUnion | nilUnionMember | unionNoResolver | unknownUnionTypes
+  | unionMemberTwice       -- "… can include … type only once."
+  | nilInterface | unknownInterfaces
+  | ifaceTwice             -- "… can only implement … once."
+  | badList | badNonNull
+  | scalarNoSerialize | scalarParsePair
+  | duplicateName
+  | ifaceMissingField | ifaceFieldType | ifaceMissingArg | ifaceArgType | ifaceExtraRequiredArg
+  | directiveNoLocations | nilDirective
+  | addFieldToThunk        -- "Cannot add field to a thunk" (InputObject.AddFieldConfig)
+  | panic                  -- nil dereference in the Go code
+  | fuel                   -- recursion budget of the model exhausted (never: `newSchema_total`)
+deriving DecidableEq, Repr, Inhabited
+
+/-- outcomes that are not ordinary errors: a nil dereference, or the model's recursion budget exhausted -/
+def Err.isCrash : Err → Bool
+  | .panic | .fuel => true
+  | _ => false
+
 structure ArgCfg where
   name : String
   present : Bool := true       -- false: the map holds a nil `*ArgumentConfig` / `*InputObjectFieldConfig`
@@ -79,6 +108,7 @@ structure TypeCfg where
   serialize : Bool := true              -- scalar
   parseValue : Bool := true
   parseLiteral : Bool := true
+  parked : Option Err := none           -- an error an API call parked on the object AFTER its construction (AddFieldConfig)
 deriving Repr, Inhabited, DecidableEq
 
 structure DirCfg where
@@ -95,29 +125,6 @@ structure Config where
   extra : List TRef := []               -- SchemaConfig.Types
   directives : List (Option DirCfg) := []
 deriving Repr, Inhabited
-
-inductive Err where
-  | noQuery
-  | badName                -- "Type must be named." / "Names must match …"
-  | emptyFields            -- "… fields must be an object with field names as keys …"
-  | fieldTypeNotOutput     -- "… field type must be Output Type but got …" (nil, or not an output type)
-  | nilArg                 -- "… args must be an object with argument names as keys."
-  | argTypeNotInput        -- "… argument type must be Input Type but got …"
-  | inputFieldTypeNotInput -- "… field type must be Input Type but got …"
-  | emptyEnum | nilEnumValue
-  | enumValueReserved      -- "Name \"true\" can not be used as an Enum value."
-  | emptyUnion | nilUnionMember | unionNoResolver | unknownUnionTypes
-  | unionMemberTwice       -- "… can include … type only once."
-  | nilInterface | unknownInterfaces
-  | ifaceTwice             -- "… can only implement … once."
-  | badList | badNonNull
-  | scalarNoSerialize | scalarParsePair
-  | duplicateName
-  | ifaceMissingField | ifaceFieldType | ifaceMissingArg | ifaceArgType | ifaceExtraRequiredArg
-  | directiveNoLocations | nilDirective
-  | panic                  -- nil dereference in the Go code
-  | fuel                   -- recursion budget of the model exhausted (never: `newSchema_total`)
-deriving DecidableEq, Repr, Inhabited
 
 /-! ## Names -/
 
@@ -250,7 +257,18 @@ def ctorErrT (t : TypeCfg) : Option Err :=
   | .enum => enumErr t.values
   | _ => none
 
-def ctorErr (cfg : Config) (i : Nat) : Option Err := ctorErrT (cfg.get i)
+/-- an error parked on the object after construction (never a crash outcome) -/
+def parkedOf (t : TypeCfg) : Option Err :=
+  match t.parked with
+  | some e => if e.isCrash then none else some e
+  | none => none
+
+/-- `t.Error()` of a named type object before `NewSchema` / `AppendType` look at it: the constructor's error, else an
+error parked later -/
+def ctorErr (cfg : Config) (i : Nat) : Option Err :=
+  match ctorErrT (cfg.get i) with
+  | some e => some e
+  | none => parkedOf (cfg.get i)
 
 /-- `NewList` / `NewNonNull` applied bottom-up: a wrapper whose constructor fails keeps `OfType == nil`. A typed nil
 pointer counts as nil (`isNilType`). -/
